@@ -272,6 +272,11 @@ def echo_kwargs(channel, **kw):
     channel.send(__name__)  # noqa: F821
 
 
+def check_kwargs(channel, text, data, n):
+    ok = type(text) is str and text == "t\u20ac" and type(data) is bytes and data == b"d" and n == 1
+    channel.send(1 if ok else 0)
+
+
 def close_inside(channel):
     try:
         channel.close()
